@@ -10,7 +10,9 @@ The property oracles (exact `Fraction` arithmetic, shapely) never use the model.
 """
 from __future__ import annotations
 
+import json
 import math
+import os
 import random
 import re
 import types
@@ -49,6 +51,7 @@ META = {
 }
 
 CRS = "epsg:3577"
+VERIF_DIR = __import__("pathlib").Path(__file__).resolve().parent.parent
 TOL = Fraction(1e-8)
 P_WEB = math.pi * 6378137
 
@@ -560,6 +563,264 @@ def other_crs_geom(O, shp4326, grid=None):
         return got == ref == gotc and len(got) > 0, f"{shp4326.geom_type}: tiles_from_geopolygon {got[:8]} (with cache {gotc[:8]}) vs shapely reference {ref[:8]}"
     except Exception as e:  # pylint: disable=broad-except
         return False, repr(e)
+
+
+# ----------------------------------------------------------------------------- big cross-CRS queries
+def _proj_truth(shp4326, dst_crs: str, step: float):
+    """the query geometry in the grid CRS, independent of odc-geo's bbox / to_crs code: a fresh pyproj transformer
+    applied (v) to the vertices only — what `Geometry.to_crs` without `resolution` does — and (t) to the geometry
+    densified in its own CRS with segments <= step degrees (its true point set)"""
+    import numpy as np
+    import pyproj
+    import shapely
+
+    tr = pyproj.Transformer.from_crs("epsg:4326", dst_crs, always_xy=True)
+    f = lambda a: np.column_stack(tr.transform(a[:, 0], a[:, 1]))
+    return shapely.transform(shp4326, f), shapely.transform(shapely.segmentize(shp4326, step), f)
+
+
+def oracle_big_crs(C, O, gdesc, shp4326, known_check=None):
+    """continental-size geometry in EPSG:4326 against a projected grid.  Brute force over a window of tiles
+    computed from the projected geometry's bounds by plain floor division (no idx_bounds / boundingbox code):
+      enforced (agnostic to whether the library densifies edges): a tile overlapping BOTH the vertex-projected
+        and the true (densified) geometry by more than 1e-4 of a tile's area must be returned; a returned tile must
+        come within 50 m of one of the two;
+      reported (key polygon-query-other-crs-curved-edges, see run()): tiles overlapping the TRUE geometry."""
+    import shapely.geometry as sg
+
+    crs, shape, res = gdesc
+    case = {"op": "bigcrs", "crs": crs, "shape": list(shape), "res": res, "wkb": shp4326.wkb_hex, "wkt": shp4326.wkt[:300]}
+    try:
+        gs = O.GridSpec(crs, shape, res)
+        g = O.geom.Geometry(shp4326, "epsg:4326")
+        got = {tuple(map(int, k)) for k, _ in gs.tiles_from_geopolygon(g)}
+        gotc = {tuple(map(int, k)) for k, _ in gs.tiles_from_geopolygon(g, {})}
+    except Exception as e:  # pylint: disable=broad-except
+        C.oracle(False, "polygon-query-raises", case, repr(e))
+        return None
+    span = max(shp4326.bounds[2] - shp4326.bounds[0], shp4326.bounds[3] - shp4326.bounds[1])
+    Pv, Pt = _proj_truth(shp4326, crs, min(0.02, max(span / 2000, 1e-4)))
+    if not Pv.is_valid or not Pt.is_valid:
+        return None
+    both = Pv.intersection(Pt)
+    either = Pv.union(Pt)
+    tsx, tsy = shape[1] * abs(res), shape[0] * abs(res)
+    l, b, r, t = either.bounds
+    ix1, ix2 = math.floor(l / tsx) - 2, math.floor(r / tsx) + 2
+    iy1, iy2 = math.floor(b / tsy) - 2, math.floor(t / tsy) + 2
+    if (ix2 - ix1) * (iy2 - iy1) > 6000:
+        return None
+    slack_a = 1e-4 * tsx * tsy
+    miss_true = []
+    C.oracle(got == gotc, "polygon-query-depends-on-cache", case, f"cross-CRS query differs with a fresh cache: {len(got)} vs {len(gotc)} tiles")
+    for ix in range(ix1, ix2 + 1):
+        for iy in range(iy1, iy2 + 1):
+            tb = sg.box(ix * tsx, iy * tsy, (ix + 1) * tsx, (iy + 1) * tsy)   # origin (0,0), no flips
+            if (ix, iy) in got:
+                C.oracle(either.distance(tb) <= 50.0, "polygon-query-other-crs-returns-distant-tile", dict(case, tile=[ix, iy]),
+                         f"tile {(ix, iy)} returned but it is {either.distance(tb):.0f} m away from the reprojected geometry",
+                         sig="bigcrs|" + crs)
+            else:
+                a = both.intersection(tb).area if both.intersects(tb) else 0.0
+                C.oracle(a <= slack_a, "polygon-query-other-crs-misses-overlap", dict(case, tile=[ix, iy]),
+                         f"{crs} {tsx / 1000:g} km tiles: tile {(ix, iy)} overlaps the query (EPSG:4326 {shp4326.geom_type}, {span:.1f} deg wide) "
+                         f"by {a / 1e6:.1f} km^2 but was not returned ({len(got)} tiles returned)", sig="bigcrs|" + crs)
+                at = Pt.intersection(tb).area if Pt.intersects(tb) else 0.0
+                if at > slack_a:
+                    miss_true.append(((ix, iy), at))
+    return miss_true
+
+
+def gen_big_shape(rng):
+    """continental polygons over Australia with a vertex on the bulging side of the lon/lat bounding box"""
+    import shapely.geometry as sg
+
+    w = rng.uniform(8, 30)
+    lon0 = rng.uniform(113, 153 - w)
+    lat0 = rng.uniform(-42, -22)
+    h = rng.uniform(4, 14)
+    mid = lon0 + w / 2 + rng.uniform(-0.1, 0.1) * w
+    kind = rng.choice(["apex-north", "apex-south", "diamond", "box", "multi"])
+    if kind == "apex-north":
+        return sg.Polygon([(lon0, lat0), (lon0 + w, lat0), (mid, lat0 + h)])
+    if kind == "apex-south":
+        return sg.Polygon([(lon0, lat0 + h), (mid, lat0), (lon0 + w, lat0 + h)])
+    if kind == "diamond":
+        return sg.Polygon([(lon0, lat0 + h / 2), (mid, lat0), (lon0 + w, lat0 + h / 2), (mid, lat0 + h)])
+    if kind == "box":
+        return sg.box(lon0, lat0, lon0 + w, lat0 + h)
+    return sg.MultiPolygon([sg.Polygon([(lon0, lat0), (lon0 + w / 3, lat0), (lon0 + w / 6, lat0 + h)]),
+                            sg.Polygon([(lon0 + 2 * w / 3, lat0 + h), (lon0 + w, lat0 + h), (lon0 + 5 * w / 6, lat0)])])
+
+
+# ----------------------------------------------------------------------------- values survive pickle / copy
+def behaviour(gs, O, idxs, pts, q):
+    """observable behaviour of a grid on indices != 0 on every axis"""
+    out = [grid_s(gs), str(gs.crs)]
+    for k in idxs:
+        out.append(tile_s(gs.tile_geobox(k)))
+        out.append(tile_s(gs[k]))
+    for x, y in pts:
+        out.append(idx_s(gs.pt2idx(x, y).xy))
+    bb = O.BoundingBox(*q, str(gs.crs))
+    out.append(" ".join(str(int(v)) for v in gs.idx_bounds(bb)))
+    out.append(list_s([tuple(map(int, k)) for k, _ in gs.tiles(bb)], idx_s))
+    return out
+
+
+_CHILD = r"""
+import sys, pickle
+sys.path[:0] = [p for p in sys.argv[1].split('|') if p]
+import warnings; warnings.filterwarnings('ignore')
+from harness import c14
+O = c14._import()
+items = pickle.load(sys.stdin.buffer)
+res = []
+for blob, idxs, pts, q in items:
+    try:
+        g = pickle.loads(blob)
+        res.append((c14.behaviour(g, O, idxs, pts, q), pickle.dumps(g)))
+    except Exception as e:
+        res.append((['ERR ' + repr(e)], b''))
+pickle.dump(res, sys.stdout.buffer)
+"""
+
+
+def grid_from_recipe(O, rec):
+    if rec[0] == "spec":
+        return Spec.from_tok(rec[1].split(" ")).make(O)
+    if rec[0] == "web":
+        return O.GridSpec.web_tiles(rec[1], rec[2])
+    if rec[0] == "fst":
+        f = lambda v: float(Fraction(v))
+        return O.GridSpec.from_sample_tile(O.geom.box(*[f(v) for v in rec[1]], rec[2]), shape=tuple(rec[3]), idx=tuple(rec[4]),
+                                           flipx=rec[5], flipy=rec[6])
+    raise ValueError(rec)
+
+
+def value_item(O, rec):
+    """(recipe, grid, indices != 0 on both axes, points, query box) for the round-trip checks"""
+    gs = grid_from_recipe(O, rec)
+    idxs = [(2, -3), (-1, 4)]
+    b = gs[2, -3].boundingbox
+    b2 = gs[-1, 4].boundingbox
+    pts = [((b.left + b.right) / 2, (b.bottom + b.top) / 2), (b2.left, b2.bottom)]
+    w, h = b.right - b.left, b.top - b.bottom
+    return (rec, gs, idxs, pts, (b.left - w / 2, b.bottom - h / 2, b.right + w, b.top + h / 2))
+
+
+def roundtrip_values(C, O, items, cross_process: bool):
+    """items: (description, GridSpec, idxs, pts, query bbox).  The grid must survive pickle (every protocol),
+    copy.copy, copy.deepcopy and a trip through another interpreter with BEHAVIOURAL equality."""
+    import copy
+    import pickle
+    import subprocess
+    import sys as _sys
+
+    restored = []
+    for desc, gs, idxs, pts, q in items:
+        case = {"op": "valuert", "desc": desc if isinstance(desc, str) else json.dumps(desc), "recipe": desc}
+        try:
+            want = behaviour(gs, O, idxs, pts, q)
+            ways = [("copy.copy", copy.copy(gs)), ("copy.deepcopy", copy.deepcopy(gs))]
+            ways += [(f"pickle-{p}", pickle.loads(pickle.dumps(gs, protocol=p))) for p in (2, 3, pickle.HIGHEST_PROTOCOL)]  # protocols 0/1 cannot pickle __slots__ classes (Bin1D)
+            ways.append(("deepcopy-in-container", copy.deepcopy({"g": [gs]})["g"][0]))
+            for how, g2 in ways:
+                got = behaviour(g2, O, idxs, pts, q)
+                ok = (g2 == gs) and (gs == g2) and got == want
+                diff = next((f"{a!r} vs original {b!r}" for a, b in zip(got, want) if a != b), "")
+                C.oracle(ok, "value-roundtrip", dict(case, how=how),
+                         f"{desc} through {how}: restored == original is {g2 == gs}; first behavioural difference: {diff[:300]}",
+                         sig="valuert|" + how.split("-")[0])
+                restored.append((desc, how, g2))
+        except Exception as e:  # pylint: disable=broad-except
+            C.oracle(False, "value-roundtrip-raises", case, repr(e))
+    if cross_process and items:
+        try:
+            payload = pickle.dumps([(pickle.dumps(gs), idxs, pts, q) for _, gs, idxs, pts, q in items])
+            paths = "|".join([os.environ.get("ODC_GEO_REPO", ""), str(VERIF_DIR)])
+            p = subprocess.run([_sys.executable, "-c", _CHILD, paths], input=payload, capture_output=True, timeout=120)
+            res = pickle.loads(p.stdout)
+            for (desc, gs, idxs, pts, q), (got, blob) in zip(items, res):
+                want = behaviour(gs, O, idxs, pts, q)
+                back = pickle.loads(blob) if blob else None
+                ok = got == want and back == gs and behaviour(back, O, idxs, pts, q) == want
+                diff = next((f"{a!r} vs original {b!r}" for a, b in zip(got, want) if a != b), "")
+                C.oracle(ok, "value-roundtrip", {"op": "valuert", "desc": json.dumps(desc), "recipe": desc, "how": "other-process"},
+                         f"{desc} pickled to another interpreter and back: first behavioural difference: {diff[:300]}",
+                         sig="valuert|other-process")
+        except Exception as e:  # pylint: disable=broad-except
+            C.oracle(False, "value-roundtrip-raises", {"op": "valuert", "how": "other-process"}, repr(e)[:500])
+    return restored
+
+
+# ----------------------------------------------------------------------------- one instance, many threads
+def thread_stress(C, O, sp: Spec, budget_s: float, seed: int, nthreads: int = 6):
+    """Time-boxed stress (NOT a proof): `nthreads` threads hammer ONE GridSpec with tile_geobox / __getitem__ /
+    tiles / tiles_from_geopolygon / pt2idx / geojson over a small set of indices; every answer is compared with
+    the answer a fresh instance gave single-threaded.  Interleavings are provoked by sys.setswitchinterval(1e-6)
+    and by yield points injected into the constructors the module calls (`gridspec.Affine`, `gridspec.GeoBox`:
+    a sleep that releases the GIL just before the real constructor runs)."""
+    import sys as _sys
+    import threading
+    import time
+
+    case = {"op": "threads", "grid": sp.tok(), "threads": nthreads, "seed": seed}
+    idxs = [(1, -2), (-3, 2), (2, 2), (-1, -1)]
+    fresh = sp.make(O)
+    bbs = [fresh[k].boundingbox for k in idxs]
+    q = O.BoundingBox(bbs[0].left, bbs[0].bottom, bbs[0].right + float(sp.szx), bbs[0].top + float(sp.szy), CRS)
+    poly = O.geom.polygon([(q.left, q.bottom), (q.right, q.bottom), (q.left, q.top), (q.left, q.bottom)], CRS)
+    pts = [((b.left + b.right) / 2, (b.bottom + b.top) / 2) for b in bbs]
+
+    def ops(gs):
+        return ([("tile_geobox", k, lambda k=k: tile_s(gs.tile_geobox(k))) for k in idxs]
+                + [("getitem", k, lambda k=k: tile_s(gs[k])) for k in idxs]
+                + [("pt2idx", p, lambda p=p: idx_s(gs.pt2idx(*p).xy)) for p in pts]
+                + [("tiles", "q", lambda: " ".join(f"{idx_s(k)}={tile_s(gb)}" for k, gb in gs.tiles(q))),
+                   ("tiles_from_geopolygon", "poly", lambda: " ".join(f"{idx_s(k)}={tile_s(gb)}" for k, gb in gs.tiles_from_geopolygon(poly))),
+                   ("geojson", "q", lambda: repr([(f["properties"], f["geometry"]) for f in gs.geojson(bbox=q)["features"]]))])
+
+    want = [f() for _, _, f in ops(fresh)]
+    shared = sp.make(O)
+    shared_ops = ops(shared)
+    bad: List[str] = []
+    stop = time.time() + budget_s
+    mod = O.gridspec
+    real_aff, real_gb = mod.Affine, mod.GeoBox
+
+    def slow(ctor):
+        def make(*a, **kw):
+            time.sleep(0)  # yield point: lets another thread run between the statements of the caller
+            return ctor(*a, **kw)
+        return make
+
+    def worker(n):
+        rr = random.Random(seed * 100 + n)
+        while time.time() < stop and not bad:
+            i = rr.randrange(len(shared_ops))
+            name, arg, f = shared_ops[i]
+            try:
+                got = f()
+            except Exception as e:  # pylint: disable=broad-except
+                got = "ERR " + repr(e)
+            if got != want[i]:
+                bad.append(f"thread {n}: {name}({arg}) on the shared GridSpec = {got[:200]} but a fresh instance gives {want[i][:200]}")
+
+    old = _sys.getswitchinterval()
+    try:
+        _sys.setswitchinterval(1e-6)
+        mod.Affine, mod.GeoBox = slow(real_aff), slow(real_gb)
+        ths = [threading.Thread(target=worker, args=(n,)) for n in range(nthreads)]
+        for th in ths:
+            th.start()
+        for th in ths:
+            th.join()
+    finally:
+        mod.Affine, mod.GeoBox = real_aff, real_gb
+        _sys.setswitchinterval(old)
+    C.oracle(not bad, "shared-instance-concurrency", case, bad[0] if bad else "", sig="threads|" + sp.sig())
+    return not bad
 
 # ----------------------------------------------------------------------------- histories (shared geobox_cache)
 def key_yx(k):
@@ -1364,6 +1625,74 @@ def run(R: Run):
             R.oracle(ok, "polygon-query-other-crs", {"op": "geom4326", "wkb": shp.wkb_hex, "wkt": shp.wkt[:300]}, what,
                      sig="geom|other-crs|" + shp.geom_type)
 
+    # --- the CRS guard of idx_bounds / tiles: a bounding box in a foreign CRS is rejected today (corr stream)
+    for sp in rng.sample(lattice, 6):
+        gs = sp.make(O)
+        for crs_b, same in (("epsg:4326", False), ("epsg:3857", False), (CRS, True), ("EPSG:3577", True)):
+            q = (float(Fraction(sp.ox) - sp.szx / 2), float(Fraction(sp.oy) + sp.szy / 4), float(Fraction(sp.ox) + 2 * sp.szx), float(Fraction(sp.oy) + sp.szy))
+            bbq = O.BoundingBox(*q, crs_b)
+            corr(R, f"c14 idxbc E {sp.tok()} {bool_s(same)} {' '.join(fs(v) for v in q)}",
+                 lambda: guarded(lambda: " ".join(str(int(v)) for v in gs.idx_bounds(bbq))) + " "
+                 + guarded(lambda: list_s([tuple(map(int, k)) for k, _ in gs.tiles(bbq)], idx_s)), sig=f"idxbc|same-crs={same}")
+
+    # --- continental-size geometries in EPSG:4326 against projected grids (curved edges, vertex on the bulging side)
+    big_grids = [("epsg:3577", (4000, 4000), 25.0), ("epsg:3577", (2000, 2500), 30.0), ("epsg:32755", (10000, 10000), 10.0),
+                 ("epsg:3857", (4000, 4000), 50.0)]
+    curved: List[str] = []
+    import shapely.geometry as sg2
+    fixed_big = [sg2.Polygon([(118.0, -34.0), (146.0, -34.0), (132.0, -24.6)]), sg2.Polygon([(115.0, -20.0), (150.0, -20.0), (132.5, -36.0)])]
+    for n in range(R.pick(7, 40)):
+        shp = fixed_big[n] if n < len(fixed_big) else gen_big_shape(rng)
+        gd = big_grids[0] if n < len(fixed_big) else rng.choice(big_grids)
+        miss = oracle_big_crs(R, O, gd, shp)
+        if miss:
+            worst = max(miss, key=lambda m: m[1])
+            curved.append(f"{gd[0]} {shp.wkt[:90]}: {len(miss)} tiles overlapping the densified geometry are not returned, worst {worst[0]} by {worst[1] / 1e6:.0f} km^2")
+            R.count("bigcrs|curved-edge-tiles-missed", len(miss))
+            if R.match_known("polygon-query-other-crs-curved-edges") is not None:
+                R.oracle(False, "polygon-query-other-crs-curved-edges", {"op": "bigcrs", "crs": gd[0], "shape": list(gd[1]), "res": gd[2],
+                                                                         "wkb": shp.wkb_hex, "wkt": shp.wkt[:300], "strict": True}, curved[-1])
+    if curved:
+        R.notes.append("tiles_from_geopolygon reprojects the query's VERTICES only (to_crs without resolution): edges that are straight in "
+                       "lon/lat are replaced by chords in the grid CRS; for continental polygons tiles overlapping the true geometry are "
+                       "missed, e.g. " + curved[0])
+
+    # --- values survive pickle / copy.copy / copy.deepcopy / another interpreter with behavioural equality:
+    #     whole constructor matrix (4 resolution signs x 4 flips, origins), web_tiles, from_sample_tile, float grids
+    recipes = [["spec", sp.tok()] for sp in lattice if sp.ox != 0 and abs(Fraction(sp.rx)) == Fraction(1, 2)]
+    recipes += [["web", z, npix] for z, npix in ((0, 256), (3, 256), (7, 512), (12, 100))]
+    for _ in range(R.pick(6, 30)):
+        l, b = rng.uniform(-1e6, 1e6), rng.uniform(-1e6, 1e6)
+        recipes.append(["fst", [fs(l), fs(b), fs(l + rng.choice([1.0, 96000.0, 1 / 3])), fs(b + rng.choice([0.25, 100000.0]))], CRS,
+                        [rng.choice([10, 3200]), rng.choice([7, 4000])], [rng.randint(-20, 20), rng.randint(-20, 20)],
+                        rng.random() < 0.6, rng.random() < 0.6])
+    for _ in range(R.pick(8, 40)):
+        (ny, nx), (rx, ry), (ox, oy) = rng.choice(presets)
+        recipes.append(["spec", Spec(ny, nx, rx * rng.choice([1, -1]), ry * rng.choice([1, -1]), ox, oy, rng.random() < 0.6, rng.random() < 0.6).tok()])
+    items = [value_item(O, rec) for rec in recipes]
+    restored = roundtrip_values(R, O, items, cross_process=True)
+    for rec, how, g2 in restored:      # the restored objects also go through the model correspondence
+        if rec[0] == "spec" and how in ("copy.copy", "pickle-2", "copy.deepcopy") and rng.random() < 0.5:
+            sp2 = Spec.from_tok(rec[1].split(" "))
+            emit_tile(R, O, g2, sp2, (2, -3), "F")
+            emit_pt(R, O, g2, sp2, float(Fraction(sp2.ox) - sp2.szx * Fraction(5, 4)), float(Fraction(sp2.oy) + sp2.szy * Fraction(9, 4)), "F", "|restored")
+    for sz, o, d in ((2.5, -1.75, -1), (100000.0, -5472000.0, 1), (1 / 3, 0.1, -1)):
+        import copy as _copy
+        import pickle as _pickle
+        b0 = O.Bin1D(sz, o, d)
+        for how, b1 in (("copy", _copy.copy(b0)), ("deepcopy", _copy.deepcopy(b0)), ("pickle", guarded_obj(lambda: _pickle.loads(_pickle.dumps(b0))))):
+            ok = b1 is not None and b1 == b0 and b1[-7] == b0[-7] and b1.bin(o - 3.3 * sz) == b0.bin(o - 3.3 * sz)
+            R.oracle(ok, "value-roundtrip", {"op": "valuert-bin", "sz": fs(sz), "o": fs(o), "d": d, "how": how},
+                     f"Bin1D({sz},{o},{d}) through {how}: {b1!r}", sig="valuert|bin1d")
+
+    # --- one GridSpec shared by many threads (time-boxed stress with injected yield points; see thread_stress)
+    t_budget = R.pick(1.2, 6.0)
+    for n, spx in enumerate([Spec(10, 10, 0.5, -0.5, 0.0, 0.0, False, False), Spec(3, 2, -0.75, 0.25, -0.75, 2.5, True, True)]
+                            + [rng.choice(lattice) for _ in range(R.pick(1, 3))]):
+        thread_stress(R, O, spx, t_budget, R.seed * 10 + n)
+    R.assumptions.append("shared-instance thread safety is SAMPLED by a time-boxed stress (setswitchinterval 1e-6 + yield points injected "
+                         "into gridspec.Affine/GeoBox), not proved; the model is a pure function of its arguments")
+
     # --- web tiles ------------------------------------------------------------------------------------
     # (a) the real constant: F mode must reproduce every rounding of pi*R*(2**(1-z)), y - tsz, …
     hz: List[str] = []
@@ -1450,6 +1779,13 @@ def other_crs_case(O, ring):
         return got == ref and len(got) > 0, f"tiles_from_geopolygon {got[:8]} vs shapely reference {ref[:8]}"
     except Exception as e:  # pylint: disable=broad-except
         return False, repr(e)
+
+
+def guarded_obj(fn):
+    try:
+        return fn()
+    except Exception:  # pylint: disable=broad-except
+        return None
 
 
 def e_safe_fst(q, ix, iy, px, py) -> bool:
@@ -1581,7 +1917,17 @@ def search(R: Run, mismatches):
         oracle_web(C, O, z, 256, [(0, 0), (n - 1, n - 1), (n // 2, n // 3)])
         if C.fail:
             return C.fail
-    return None
+    try:
+        import shapely.geometry as sg
+        roundtrip_values(C, O, [value_item(O, rec) for rec in (["spec", "3 2 -3/4 1/4 -3/4 5/2 T T"], ["web", 3, 256],
+                                                               ["spec", "10 10 1/2 -1/2 0 0 F T"])], False)
+        if not C.fail:
+            oracle_big_crs(C, O, ("epsg:3577", (4000, 4000), 25.0), sg.Polygon([(118.0, -34.0), (146.0, -34.0), (132.0, -24.6)]))
+        if not C.fail:
+            thread_stress(C, O, Spec(3, 2, -0.75, 0.25, -0.75, 2.5, True, True), 3.0, 1)
+    except Exception:  # pylint: disable=broad-except
+        pass
+    return C.fail
 
 
 def replay(R: Run, rec) -> int:
@@ -1593,7 +1939,22 @@ def replay(R: Run, rec) -> int:
     C = Collector()
     op = case.get("op")
     f = lambda s: float(Fraction(s))
-    if op == "geom":
+    if op == "bigcrs":
+        import shapely
+        shp = shapely.from_wkb(bytes.fromhex(case["wkb"]))
+        print("geometry (EPSG:4326):", shp.wkt[:300])
+        miss = oracle_big_crs(C, O, (case["crs"], tuple(case["shape"]), case["res"]), shp)
+        if case.get("strict"):
+            print("tiles overlapping the densified geometry but not returned:", [(k, round(a / 1e6)) for k, a in (miss or [])][:12])
+            return 1 if miss else 0
+    elif op == "valuert":
+        roundtrip_values(C, O, [value_item(O, case["recipe"])], case.get("how") == "other-process")
+    elif op == "threads":
+        sp = Spec.from_tok(case["grid"].split(" "))
+        for n in range(5):
+            if not thread_stress(C, O, sp, 3.0, case.get("seed", 0) + n, case.get("threads", 6)):
+                break
+    elif op == "geom":
         import shapely
         sp = Spec.from_tok(case["grid"].split(" "))
         gs = sp.make(O)
